@@ -32,7 +32,7 @@ type hooks struct {
 
 type trace struct {
 	SolveCalls, ProveCalls                                       int
-	SolveIns, GenuineOuts, GivenOuts, GenuineProof, GivenProof []*big.Int
+	SolveIns, UsedIns, GenuineOuts, GivenOuts, GenuineProof, GivenProof []*big.Int
 	OwnProofErr                                                  error
 	EvalMismatch                                                 bool
 }
@@ -55,7 +55,7 @@ var kits = []curveKit{
 			tr := new(cv254.Trace)
 			o := cv254.Options(info, &cv254.Hooks{MutateIns: h.MutateIns, MutateOuts: h.MutateOuts, OwnProof: h.OwnProof, MutateProof: h.MutateProof}, tr)
 			return o, func() trace {
-				return trace{tr.SolveCalls, tr.ProveCalls, tr.SolveIns, tr.GenuineOuts, tr.GivenOuts, tr.GenuineProof, tr.GivenProof, tr.OwnProofErr, tr.EvalMismatch}
+				return trace{tr.SolveCalls, tr.ProveCalls, tr.SolveIns, tr.UsedIns, tr.GenuineOuts, tr.GivenOuts, tr.GenuineProof, tr.GivenProof, tr.OwnProofErr, tr.EvalMismatch}
 			}
 		},
 	},
@@ -65,7 +65,7 @@ var kits = []curveKit{
 			tr := new(cv377.Trace)
 			o := cv377.Options(info, &cv377.Hooks{MutateIns: h.MutateIns, MutateOuts: h.MutateOuts, OwnProof: h.OwnProof, MutateProof: h.MutateProof}, tr)
 			return o, func() trace {
-				return trace{tr.SolveCalls, tr.ProveCalls, tr.SolveIns, tr.GenuineOuts, tr.GivenOuts, tr.GenuineProof, tr.GivenProof, tr.OwnProofErr, tr.EvalMismatch}
+				return trace{tr.SolveCalls, tr.ProveCalls, tr.SolveIns, tr.UsedIns, tr.GenuineOuts, tr.GivenOuts, tr.GenuineProof, tr.GivenProof, tr.OwnProofErr, tr.EvalMismatch}
 			}
 		},
 	},
